@@ -9,7 +9,7 @@ pub struct MoveInfo {
     en_passant_target_stack: Vec<Bitboard>,
     castle_rights_stack: Vec<CastleRightsBitmask>,
     halfmove_clock_stack: Vec<u8>,
-    fullmove_clock: u8,
+    fullmove_clock: u32,
 }
 
 impl Default for MoveInfo {
@@ -81,22 +81,22 @@ impl MoveInfo {
 
     // Position clock state management
 
-    pub fn increment_fullmove_clock(&mut self) -> u8 {
+    pub fn increment_fullmove_clock(&mut self) -> u32 {
         self.fullmove_clock += 1;
         self.fullmove_clock
     }
 
-    pub fn decrement_fullmove_clock(&mut self) -> u8 {
+    pub fn decrement_fullmove_clock(&mut self) -> u32 {
         self.fullmove_clock -= 1;
         self.fullmove_clock
     }
 
-    pub fn set_fullmove_clock(&mut self, clock: u8) -> u8 {
+    pub fn set_fullmove_clock(&mut self, clock: u32) -> u32 {
         self.fullmove_clock = clock;
         clock
     }
 
-    pub fn fullmove_clock(&self) -> u8 {
+    pub fn fullmove_clock(&self) -> u32 {
         self.fullmove_clock
     }
 
